@@ -217,8 +217,32 @@ class NslLexer:
         self.lexer.lineno = 1
 
     def input(self, text):
+        self.__previous = None
         self.lexer.input(text)
+
+    # Tokens after which + or - can only be a binary operator
+    __operandEnd = {
+        "ID",
+        "INT_CONST_DEC",
+        "INT_CONST_OCT",
+        "INT_CONST_HEX",
+        "FLOAT_CONST",
+        ")",
+        "]",
+    }
 
     def token(self):
         g = self.lexer.token()
+        if (
+            g is not None
+            and g.type == "INT_CONST_DEC"
+            and g.value[0] in "+-"
+            and self.__previous in self.__operandEnd
+        ):
+            # a-1 is a minus 1, not a followed by the constant -1: hand out
+            # the sign as an operator and lex the digits again
+            g.type = "PLUS" if g.value[0] == "+" else "MINUS"
+            g.value = g.value[0]
+            self.lexer.lexpos = g.lexpos + 1
+        self.__previous = g.type if g is not None else None
         return g
